@@ -116,6 +116,7 @@ class Generated:
         self.rewrite_log = []
         self.drop_counts = {}
         self.types = []
+        self.lost = []   # (fn key, props, reason)
 
     def text(self):
         return '\n'.join(self.lines) + '\n'
@@ -187,7 +188,17 @@ class Unit:
                     if j >= len(tl):
                         raise Undecided('template error: //@fn without //@endfn at line %d' % (i + 1))
                 spec = self.parse_fn_block(tl[i:j])
-                self.emit_fn(gen, spec, canary)
+                mark = len(gen.lines)
+                nlog = len(gen.rewrite_log)
+                try:
+                    self.emit_fn(gen, spec, canary)
+                except (Undecided, ScanError) as e:
+                    # this function could not be brought into the unit: it becomes an assumed stub with its
+                    # contract (so that its callers can still be checked) and is reported as lost; the
+                    # properties that have clauses in it are undecided on this tree
+                    del gen.lines[mark:]
+                    del gen.rewrite_log[nlog:]
+                    self.emit_stub(gen, spec, str(e))
                 i = j + 1
             elif s.startswith('//@type '):
                 f, name = [x.strip() for x in s[len('//@type '):].split('|')]
@@ -216,7 +227,8 @@ class Unit:
         parts = [x.strip() for x in lines[0].strip()[len('//@fn '):].split('|')]
         spec.file, spec.container, spec.name = parts[0], parts[1], parts[2]
         if len(parts) > 3 and parts[3].startswith('closure'):
-            spec.closure = [int(x) for x in parts[3].split()[1].split('.')]
+            sel = parts[3].split(None, 1)[1].strip()
+            spec.closure = [sel] if sel.startswith('~') else [int(x) for x in sel.split('.')]
         spec.key = '%s::%s%s' % (spec.file, spec.name, ('#closure%s' % '.'.join(map(str, spec.closure))) if spec.closure is not None else '')
         cur = None  # list to append content lines to
         curloop = None
@@ -278,7 +290,8 @@ class Unit:
                 spec.anchors.append(a); cur = a[2]
             elif word == 'closure':
                 k, repl = rest.split('=>', 1)
-                spec.closures[int(k.strip())] = repl.strip(); cur = None
+                k = k.strip()
+                spec.closures[int(k) if k.isdigit() else k] = repl.strip(); cur = None
             elif word == 'lrw':
                 rx, repl = rest.rsplit('=>', 1)
                 spec.lrw.append(('L', re.compile(rx.strip(), re.S), repl.strip())); cur = None
@@ -425,6 +438,13 @@ class Unit:
             lo_, hi_ = fn['bopen'] + 1, fn['bclose']
             for depth_, k_ in enumerate(spec.closure):
                 cls = self.closures_in(text, mask, lo_, hi_)
+                if isinstance(k_, str):
+                    hits = [c for c in cls if re.search(k_.lstrip('~').strip(), text[c[0]:c[1]], re.S)]
+                    if len(hits) != 1:
+                        raise Undecided('lost anchor: %d closures match %r in %s' % (len(hits), k_, spec.name))
+                    cstart, cend, cparams, bopen, bclose = hits[0]
+                    lo_, hi_ = bopen + 1, bclose
+                    continue
                 if k_ >= len(cls):
                     raise Undecided('lost anchor: closure %s of %s (found %d at depth %d)' % ('.'.join(map(str, spec.closure)), spec.name, len(cls), depth_))
                 cstart, cend, cparams, bopen, bclose = cls[k_]
@@ -441,9 +461,18 @@ class Unit:
         edits = []  # (start, end, replacement) relative to body_src
         # closures replaced by constructors (R8)
         for k, repl in spec.closures.items():
-            if k >= len(cl_in_body):
-                raise Undecided('lost anchor: closure %d in %s (found %d)' % (k, spec.key, len(cl_in_body)))
-            cs, ce = cl_in_body[k][0], cl_in_body[k][1]
+            if isinstance(k, str):
+                # `~regex`: the closure whose text matches; a closure that is no longer there is simply not replaced
+                hits = [c for c in cl_in_body if re.search(k.lstrip('~').strip(), text[c[0]:c[1]], re.S)]
+                if len(hits) == 0:
+                    continue
+                if len(hits) > 1:
+                    raise Undecided('ambiguous anchor: %d closures match %r in %s' % (len(hits), k, spec.key))
+                cs, ce = hits[0][0], hits[0][1]
+            else:
+                if k >= len(cl_in_body):
+                    raise Undecided('lost anchor: closure %d in %s (found %d)' % (k, spec.key, len(cl_in_body)))
+                cs, ce = cl_in_body[k][0], cl_in_body[k][1]
             old = text[cs:ce]
             edits.append((cs - bopen, ce - bopen, repl + '\n' * old.count('\n')))
             gen.rewrite_log.append(dict(rule='R8', file=f, fn=spec.key, before=' '.join(old.split())[:100] + ' ...', after=repl))
@@ -545,44 +574,7 @@ class Unit:
 
         # ---- header -------------------------------------------------------------------
         if sig is not None:
-            hdr = sig
-            hdr = re.sub(r'^(\s*)pub(\([a-z]+\))?\s+', r'\1', hdr)
-            if spec.mutself:
-                hdr = re.sub(r'\(\s*mut self\b', '(self', hdr, count=1)
-            hmask = code_mask(hdr)
-            hp = [m for m in find_code(hdr, hmask, r'\bfn\s+' + re.escape(spec.name) + r'\b')][0]
-            j = hp.end()
-            depth = 0
-            while True:
-                if hmask[j] and hdr[j] == '<':
-                    depth += 1
-                elif hmask[j] and hdr[j] == '>' and hdr[j - 1] != '-':
-                    depth -= 1
-                elif hmask[j] and hdr[j] == '(' and depth == 0:
-                    break
-                j += 1
-            popen = j
-            pclose = match_close(hdr, hmask, popen)
-            params = hdr[popen + 1:pclose]
-            tail = hdr[pclose + 1:]
-            if spec.ghost:
-                if params.strip() == '':
-                    params = spec.ghost
-                elif params.rstrip().endswith(','):
-                    params = params.rstrip() + ' ' + spec.ghost + ',\n    '
-                else:
-                    params = params.rstrip() + ', ' + spec.ghost
-            if spec.ret:
-                tm = re.match(r'(\s*)->\s*(.+?)(\s*(?:where\b.*)?)$', tail, re.S)
-                if tm:
-                    tail = '%s-> (%s: %s)%s' % (tm.group(1), spec.ret, tm.group(2).strip(), tm.group(3))
-                else:
-                    raise Undecided('ret name given but %s has no return type' % spec.key)
-            hdr = hdr[:popen + 1] + params + ')' + tail
-            hdr, log = self.apply_rewrites(hdr, spec.lrw, f, src_first)
-            for l in log:
-                l['fn'] = spec.key
-            gen.rewrite_log += log
+            hdr = self.make_header(spec, sig, gen, f, src_first)
         else:
             hdr = spec.header + '\n'
             gen.rewrite_log.append(dict(rule='R8', file=f, fn=spec.key, before='closure header', after=spec.header))
@@ -611,6 +603,74 @@ class Unit:
                 gen.lines.append('// ---- vacuity canary copy of %s' % spec.key)
                 self.emit_fn_text(gen, spec, hdr2, body, loop_marks, c, register=False)
             gen.clauses.append(c)
+
+    def make_header(self, spec, sig, gen, f, src_first):
+        hdr = sig
+        hdr = re.sub(r'^(\s*)pub(\([a-z]+\))?\s+', r'\1', hdr)
+        if spec.mutself:
+            hdr = re.sub(r'\(\s*mut self\b', '(self', hdr, count=1)
+        hmask = code_mask(hdr)
+        hp = [m for m in find_code(hdr, hmask, r'\bfn\s+' + re.escape(spec.name) + r'\b')][0]
+        j = hp.end()
+        depth = 0
+        while True:
+            if hmask[j] and hdr[j] == '<':
+                depth += 1
+            elif hmask[j] and hdr[j] == '>' and hdr[j - 1] != '-':
+                depth -= 1
+            elif hmask[j] and hdr[j] == '(' and depth == 0:
+                break
+            j += 1
+        popen = j
+        pclose = match_close(hdr, hmask, popen)
+        params = hdr[popen + 1:pclose]
+        tail = hdr[pclose + 1:]
+        if spec.ghost:
+            if params.strip() == '':
+                params = spec.ghost
+            elif params.rstrip().endswith(','):
+                params = params.rstrip() + ' ' + spec.ghost + ',\n    '
+            else:
+                params = params.rstrip() + ', ' + spec.ghost
+        if spec.ret:
+            tm = re.match(r'(\s*)->\s*(.+?)(\s*(?:where\b.*)?)$', tail, re.S)
+            if tm:
+                tail = '%s-> (%s: %s)%s' % (tm.group(1), spec.ret, tm.group(2).strip(), tm.group(3))
+            else:
+                raise Undecided('ret name given but %s has no return type' % spec.key)
+        hdr = hdr[:popen + 1] + params + ')' + tail
+        hdr, log = self.apply_rewrites(hdr, spec.lrw, f, src_first)
+        for l in log:
+            l['fn'] = spec.key
+        gen.rewrite_log += log
+        return hdr
+
+    def emit_stub(self, gen, spec, reason):
+        hdr = None
+        if spec.header is not None:
+            hdr = spec.header
+        else:
+            try:
+                text, mask, fn = self.locate(spec)
+                hdr = self.make_header(spec, text[fn['start']:fn['bopen']], gen, spec.file, 0)
+            except (Undecided, ScanError) as e:
+                raise Undecided('%s; and no stub possible: %s' % (reason, e))
+        props = set(spec.props)
+        for c in spec.requires + spec.ensures:
+            props |= set(c.props or [])
+        for ls in spec.loops.values():
+            for c in ls.inv + ls.inv_except_break + ls.ensures:
+                props |= set(c.props or [])
+        gen.lost.append((spec.key, sorted(props), reason))
+        gen.lines.append('// ---- LOST fn %s: %s' % (spec.key, reason.replace('\n', ' ')))
+        gen.lines.append('#[verifier::external_body]')
+        for a in spec.attrs:
+            gen.lines.append(a)
+        for ln in hdr.rstrip().split('\n'):
+            gen.lines.append(ln)
+        self.emit_clauses(gen, 'requires', spec.requires, False)
+        self.emit_clauses(gen, 'ensures', spec.ensures, False)
+        gen.lines.append('{ unimplemented!() }')
 
     def emit_fn_text(self, gen, spec, hdr, body, loop_marks, canary_clause, register=True):
         for a in spec.attrs:
